@@ -730,8 +730,7 @@ def qstep (q : QSys) : POp → QSys × List Nat
   | .close x => ((q.set x { (q.dir x) with composed := [] }).set (!x) { (q.dir (!x)) with flushed := [] }, [])
 
 /-- the operations this refinement covers: all of them (Read is covered for the case that all requested bytes are
-    buffered - in general it returns a non-empty prefix; ReadByte is covered conditionally: the theorem says what it returns
-    when it returns, the model's `none` for it is an index panic on an empty next slice, see `readByte_spec`) -/
+    buffered - in general it returns a non-empty prefix) -/
 def Covered : POp → Prop
   | _ => True
 
@@ -870,21 +869,16 @@ theorem pq_step {s s' : PSys} {q : QSys} {op : POp} (h : PQS N s q) (hc : Covere
   | readByte x =>
     obtain ⟨hx, put1, _⟩ := h.side x
     have hle' : 1 ≤ (content s.m (s.get x).recv.sl).length := by rw [← hx.yx.rlen]; exact hg
-    simp only [pstep] at e
-    cases e1 : (s.get x).recv.readByte s.m with
-    | none => rw [e1] at e; cases e
-    | some r =>
-      obtain ⟨m1, l1, b⟩ := r
-      rw [e1] at e
-      simp only [Option.some.injEq] at e
-      subst e
-      obtain ⟨e2, e3, e4, e5, _⟩ := readByte_spec s.m (s.get x).recv hx.yx.rwf hle' m1 l1 b e1
-      have a := readByte_acct s.m (s.get x).recv m1 l1 b hx.pi.shape hx.pi.x.recv e1
-      have := put1 _ _ _ _ (hx.recvStep a 1 e3 hle' e4 e5)
-      rw [QSys.set_self_other] at this
-      refine ⟨this, ?_⟩
-      simp only [pout, e1, qstep, e2]
-      rw [← hx.yx.fl, take_append_of_le_length hle']
+    obtain ⟨m1, l1, b, e1, e2, e3, e4, e5, _⟩ := readByte_spec s.m (s.get x).recv hx.yx.rwf hle'
+    simp only [pstep, e1] at e
+    simp only [Option.some.injEq] at e
+    subst e
+    have a := readByte_acct s.m (s.get x).recv m1 l1 b hx.pi.shape hx.pi.x.recv e1
+    have := put1 _ _ _ _ (hx.recvStep a 1 e3 hle' e4 e5)
+    rw [QSys.set_self_other] at this
+    refine ⟨this, ?_⟩
+    simp only [pout, e1, qstep, e2]
+    rw [← hx.yx.fl, take_append_of_le_length hle']
   | readString x n =>
     obtain ⟨hx, put1, _⟩ := h.side x
     obtain ⟨hpos, hle⟩ := hg
